@@ -11,10 +11,11 @@
   pre-index / post-index / register index with extend and shift — the operand's comma chunks are regrouped by the reader).
   Memory operands are therefore inside both line theorems: x86 via `mem_operand_ok` (size prefix, segment, base incl. `rip`,
   index*scale, signed/hex displacement, label+disp, and `{1toN}` through the chunk suffix), AArch64 via `a64_mem_operand_ok`.
-  NOT covered by the AArch64 operand kinds: vector registers with arrangement / element index (`v1.4s[1]` — the reader
-  `parseA64Reg` is structural now, its parse-back is not proved) and register lists; these stay monitored.
+  Vector registers with arrangement and element index (`v1.4s`, `v1.16b[5]`, `v1.4b[2]`: 64- and 128-bit vectors, b/h/s/d and the
+  `.4b`/`.2h` groups) are `OpOKA` too (`a64_vec_operand_ok`), so every operand kind the AArch64 backend prints is inside the theorem
+  (AsmJit passes `ld1`/`tbl` register sequences as separate vector operands; it has no AArch64 register-list operands).
 -/
-import AsmjitVerif.Lemmas.FormatA64LineFull
+import AsmjitVerif.Lemmas.FormatA64Vec
 
 namespace AsmjitVerif.Props.C20
 open AsmjitVerif.Format AsmjitVerif.FormatText AsmjitVerif.Lemmas.FormatX86Mem AsmjitVerif.Lemmas.FormatA64Mem
@@ -28,6 +29,9 @@ theorem a64_label_operand_ok (flags : Nat) (env : Env) (id : Nat) (h : LabelOK e
     (hnr : parseA64Reg env (formatLabel env id) = none) : OpOKA flags env (.label id) := label_opOKA flags env id h hnr
 theorem a64_mem_operand_ok (flags : Nat) (env : Env) (m : A64Mem) (wf : WFA64Mem env m) : OpOKA flags env (.a64mem m) :=
   mem_opOKA flags env m wf
+
+theorem a64_vec_operand_ok (flags : Nat) (env : Env) (t id etype : Nat) (eidx : Option Nat) (hid : id < 32) (hk : VecKind t etype)
+    (hidx : ∀ i, eidx = some i → i < two64) : OpOKA flags env (.reg t id etype eidx) := vec_opOKA flags env t id etype eidx hid hk hidx
 
 /-- whole-line parse-back for AArch64 -/
 theorem a64_line_parse_back (flags : Nat) (env : Env) (instId : Nat) (ops : List Operand)
@@ -54,5 +58,9 @@ theorem memLA_wf : WFA64Mem envLA memLA where
 example : a64FormatInstruction 0 envLA 161 [.reg 6 0 0 none, .a64mem memLA] = "ldr x0, [x1, w2 uxtw 2]".toList := by decide +kernel
 example : (parseA64Inst envLA (a64FormatInstruction 0 envLA (161 + 2 * 134217728) [.reg 6 0 0 none, .a64mem memLA])).map
     (fun p => (p.mnemonic, p.cond, p.ops.length)) = some ("ldr".toList, some "eq".toList, 2) := by decide +kernel
+
+example : a64FormatOperand 0 envLA (.reg 11 1 3 (some 1)) = "v1.4s[1]".toList ∧ a64FormatOperand 0 envLA (.reg 10 2 1 none) = "v2.8b".toList := by
+  decide +kernel
+example : monOperand envLA (.reg 11 1 3 (some 1)) (formatOperand 0 envLA (.reg 11 1 3 (some 1))) = true := by decide +kernel
 
 end AsmjitVerif.Props.C20
